@@ -205,6 +205,8 @@ class Walker(object):
     ):
         # type: (...) -> Iterator[Tuple[Text, Optional[Info]]]
         """Get the walk generator."""
+        # paths are reported absolute and normalised, whatever the spelling of ``path``
+        path = abspath(normpath(path))
         if self.search == "breadth":
             return self._walk_breadth(fs, path, namespaces=namespaces)
         else:
